@@ -5,6 +5,7 @@
 From Coq Require Import List Arith.
 Import ListNotations.
 From LSF Require Import TraceSpec Protocol ProtocolCheck ProtocolProofs.
+From LSF Require DrainProofs.
 
 (* in every handler invocation the acknowledgement is the last thing handed over: no publish,
    record or notification follows the acknowledgement of any event *)
@@ -41,7 +42,24 @@ Theorem C03_running_execution_is_carried_forward : forall kind s0 starts w effs 
   exists i w' effs', step kind s0 w i = Some (w', effs') /\ moves w i x.
 Proof. exact running_execution_can_move. Qed.
 
+(* nothing leaks: once an execution is terminal no queued event and no delivered, unacknowledged event of it exists
+   (and every armed timer of the model belongs to a held event) ... *)
+Theorem C03_nothing_left_of_terminal : forall kind s0 starts w effs x st,
+  reachable kind s0 starts w effs -> get_status x (statuses w) = Some st -> st <> Running ->
+  (forall e, In e (queue w) -> e_x e <> x) /\ (forall e p, In (e, p) (held w) -> e_x e <> x).
+Proof. exact DrainProofs.nothing_left_of_terminal. Qed.
+
+(* ... so when every execution that still has an event anywhere is terminal, the engine is drained: nothing queued, nothing
+   unacknowledged, no timer armed *)
+Theorem C03_all_terminal_drained : forall kind s0 starts w effs,
+  reachable kind s0 starts w effs ->
+  (forall e, In e (queue w ++ hevents w) -> exists st, get_status (e_x e) (statuses w) = Some st /\ st <> Running) ->
+  queue w = [] /\ held w = [] /\ tids w = [].
+Proof. exact DrainProofs.all_terminal_drained. Qed.
+
 Print Assumptions C03_ack_after_consequences.
+Print Assumptions C03_nothing_left_of_terminal.
+Print Assumptions C03_all_terminal_drained.
 Print Assumptions C03_acked_at_most_once.
 Print Assumptions C03_carrier_conservation.
 Print Assumptions C03_no_deadlock.
